@@ -1,12 +1,20 @@
+import e2e
+
 SPEC = {
     "corr": [{"kind": "ipfix-hist", "quick": 3000, "thorough": 200000},
              {"kind": "nf9-hist", "quick": 3000, "thorough": 200000}],
+    # the property at the collector: one exporter re-announces template 500 with alternating definitions and sends data
+    # right behind each announcement (real binary, IPFIX and NetFlow v9); with one worker per protocol every published data
+    # set must show the definition announced just before it; with several workers a data set can overtake the announcement
+    # in front of it: recorded finding K5 (`fail:worker-order`), anything else is a violation
+    "extra": [e2e.redefinition_cycles],
     "rule": "histories of 4..13 steps over 2..5 exporters (4-octet, IPv4-mapped, IPv6) and template ids incl. 65535: announce / "
             "re-announce with a different definition / data for the latest definition / data for a never-announced id; one history in "
             "three uses a pair of (exporter,id) keys found by birthday search to collide under FNV-1; non-trivial = records decoded; "
             "distinct = distinct case line",
     "assumptions": ["hash/fnv and map semantics as transcribed (fnv1, cacheKey, association list keyed by the hash)",
-                    "sequential Decode API only (concurrent use is C10)"],
+                    "the theorems and the *-hist kinds are about the sequential Decode API (concurrent cache use is C10); the order in "
+                    "which the worker pool decodes consecutive datagrams of one exporter is observed by the redefinition cycles (K5)"],
 }
 META = {
     "text": "Lean: the concrete hash-keyed cache refines the abstract map (exporter,id) -> latest template for every history whose keys do "
@@ -15,7 +23,7 @@ META = {
             "this lookup. The unconditional statement is false: hash_collision_counterexample (decide) is finding K1, re-demonstrated on "
             "the real ipfix and netflow9 caches in every run. Correspondence: histories incl. searched colliding pairs, model vs real "
             "Decode, plus a reference-map oracle.",
-    "ref": "DESIGN.md §6 C04, §8 K1",
+    "ref": "DESIGN.md §6 C04, §8 K1 K5",
     "note": "Partial: hypothesis NoCollision (K1 is a known finding, matched only by failures whose keys the harness has itself "
             "verified to collide). Trusted: Lean kernel, model of FNV-1/map, harness.",
     "technique": "Lean 4 refinement proof (hash-keyed cache -> abstract map) + differential correspondence on generated histories with adversarial hash collisions",
